@@ -1,5 +1,5 @@
 (* C15 — the echo of definitions: model of Statement::pretty_print (typed_ast.rs, as fixed) for
-   `let`, `unit` and `fn` definitions with their decorators (decorator_markup: one decorator per line,
+   `let`, `unit`, `fn`, `dimension` and `struct` definitions with their decorators (decorator_markup: one decorator per line,
    strings quoted with escape_numbat_string), over the echo of expressions (Syntax/TypedPrinter.v) and
    readable types given as type-annotation trees.  The echo is a well-formed definition of the
    documented grammar, hence (C10_roundtrip_def) it is accepted and read back as the definition it was
@@ -47,7 +47,9 @@ Inductive edef :=
 | EDLet (decos : list decorator) (name : str) (ty : sty) (body : texpr)
 | EDUnit (decos : list decorator) (name : str) (ty : sty) (body : option texpr)
 | EDFn (decos : list decorator) (name : str) (tps : list (str * bool)) (params : list (str * sty))
-       (ret : sty) (body : option texpr) (locals : list (str * sty * texpr)).
+       (ret : sty) (body : option texpr) (locals : list (str * sty * texpr))
+| EDDimension (name : str) (ds : list sty)
+| EDStruct (name : str) (tps : list (str * bool)) (fields : list (str * sty)).
 
 Definition surf_local (l : str * sty * texpr) : svar :=
   mk_svar (fst (fst l)) (Some (snd (fst l))) (echo_tree Plain (snd l)).
@@ -58,6 +60,8 @@ Definition surf (e : edef) : sdef :=
   | EDFn ds n tps ps ret b ls =>
       SFFn (map echo_deco ds) n tps (map (fun p => (fst p, Some (snd p))) ps) (Some ret)
            (match b with Some x => Some (echo_tree Plain x, map surf_local ls) | None => None end)
+  | EDDimension n ds => SFDimension n ds
+  | EDStruct n tps fs => SFStruct n tps fs
   end.
 
 (* the tokens of the echo *)
@@ -87,6 +91,8 @@ Definition echoable (e : edef) : bool :=
          | None => match ls with [] => true | _ => false end
          end
       && negb (existsb is_aliases_d ds)
+  | EDDimension n ds => negb (starts_double_underscore n) && forallb (fun d => wf_ty d && (1 <=? ylvl d)) ds
+  | EDStruct n tps fs => forallb (fun f => wf_ty (snd f)) fs
   end.
 
 (* the statement the echo is read back as *)
@@ -99,6 +105,8 @@ Definition reread_def (e : edef) : stmt :=
   | EDFn ds n tps ps ret b ls =>
       StFn n tps (map (fun p => (fst p, Some (ty_ann (snd p)))) ps) (Some (ty_ann ret))
            (option_map reread b) (match b with Some _ => map reread_local ls | None => [] end) ds
+  | EDDimension n ds => StDimension n (map ty_exp ds)
+  | EDStruct n tps fs => StStruct n tps (map desugar_field fs)
   end.
 
 Lemma existsb_echo : forall (p : decorator -> bool) (q : sdeco -> bool) ds,
@@ -138,11 +146,13 @@ Proof.
     apply andb_prop in Hl. destruct Hl as [A B]. apply andb_prop in A. destruct A as [A1 A2].
     change (wf_var (surf_local l)) with (wf_ty (snd (fst l)) && wf (echo_tree Plain (snd l))).
     rewrite A1, (wf_echo' _ A2), (IH B). reflexivity.
+  - exact H.
+  - exact H.
 Qed.
 
 Lemma surf_desugar : forall e, echoable e = true -> desugar_def (surf e) = reread_def e.
 Proof.
-  intros e H. destruct e; cbn [surf desugar_def reread_def]; rewrite decos_echo_roundtrip.
+  intros e H. destruct e; cbn [surf desugar_def reread_def]; try reflexivity; rewrite decos_echo_roundtrip.
   - reflexivity.
   - destruct body; reflexivity.
   - rewrite map_map. cbn [option_map].
